@@ -1,6 +1,6 @@
 (** Properties_C02.v — C02: refused or failed requests never change or destroy
     stored data.  Statements only. *)
-From GW Require Import Base GoPath Fs DavServer Rfc4918 FsProofs DavRefine DavCorollaries UploadSteps UploadStepsProofs.
+From GW Require Import Base GoPath Fs DavServer Rfc4918 FsProofs DavRefine DavCorollaries UploadSteps UploadStepsProofs CopySteps CopyStepsProofs CopyTempProofs.
 Local Open Scope list_scope.
 
 (** Whenever the answer is 4xx or 5xx the whole modelled file system — names,
@@ -87,3 +87,20 @@ Theorem C02_upload_not_fresh_refuted :
     snd (upload sb dir tmp name st chunks true) <> sb.
 Proof. exact upload_not_fresh_loses_data. Qed.
 Print Assumptions C02_upload_not_fresh_refuted.
+
+(** * Write errors during a COPY
+
+    LocalFileSystem.Copy copies into a temporary name next to the destination and moves
+    the copy into place when it is complete ([CopySteps.copy_via_temp]).  Whichever entry
+    of the walk cannot be created — [Some k]: entry number k fails, a disk that is full or
+    a file size limit — the tree afterwards is *equal* to the tree before (the old
+    destination included), for every sandbox, source tree, destination and new temporary
+    name.  (Before the repair the copy went straight to the destination after the old
+    one had been removed; the wfault stage of the harness provokes such write errors in
+    the real handler.) *)
+Theorem C02_copy_fault_restores : forall s dstp tmpp st n rec k,
+  tmpp <> [] -> geto s tmpp = None ->
+  fst (copy_via_temp s dstp tmpp st n rec (Some k)) = s /\
+  snd (copy_via_temp s dstp tmpp st n rec (Some k)) = false.
+Proof. exact copy_fault_restores. Qed.
+Print Assumptions C02_copy_fault_restores.
